@@ -27,7 +27,7 @@ var c10 = core.Register(&core.Prop{
 	Shards: func(tier string) int { return pickTier(tier, 8, 16) },
 	Floors: func(c map[string]int64, tier string) []string {
 		var out []string
-		for _, k := range []string{"analyses", "paths_expected", "refusals_expected", "callee_excluded", "locals_filtered", "sufficiency_pairs", "sufficiency_restricted_smaller", "in:typeof", "in:cond", "in:arr", "in:call", "in:pre", "in:paren", "in:bin", "repeated_mention_cases", "computed_callee_cases"} {
+		for _, k := range []string{"analyses", "paths_expected", "refusals_expected", "callee_excluded", "locals_filtered", "sufficiency_pairs", "sufficiency_restricted_smaller", "in:typeof", "in:cond", "in:arr", "in:call", "in:pre", "in:paren", "in:bin", "repeated_mention_cases", "computed_callee_cases", "many_names_cases"} {
 			if c[k] == 0 {
 				out = append(out, "coverage floor: no "+k)
 			}
@@ -263,7 +263,7 @@ var c10Fields = core.Mon(c10, "fields", func(w *core.W, c *FieldCase) {
 
 func c10Cfg() *gen.ProgCfg {
 	cfg := fixNums(EvalSyntax())
-	cfg.Idents = []string{"n0", "n1", "s0", "s1", "b0", "z", "m", "tm", "arr", "st", "pst", "nilp", "nd", "x0", "x1", "undefinedname", "$v", "$w", "abs", "N0", "S0", "$V", "M"}
+	cfg.Idents = []string{"n0", "n1", "s0", "s1", "b0", "z", "m", "tm", "arr", "st", "pst", "nilp", "nd", "x0", "x1", "undefinedname", "$v", "$w", "abs", "N0", "S0", "$V", "M", "__u", "_u"}
 	cfg.Kws = []string{"null", "true", "false"}
 	cfg.WSel = 22
 	cfg.WTypeof = 6
@@ -330,9 +330,25 @@ func runC10(w *core.W) {
 		}
 	}
 	w.ExhaustivePart("every pair of 24 wrapping constructs around 15 inner expressions (names, paths, calls, member access on non-paths)")
+	// 3b. many distinct names, then early ones again (sizes around the powers of two): each still exactly once
+	for zi, n := range []int{2, 7, 8, 9, 15, 16, 17, 18, 31, 32, 33, 63, 64, 65, 127, 128, 129, 300} {
+		if !w.Mine(zi) {
+			continue
+		}
+		var parts []string
+		for k := 1; k <= n; k++ {
+			parts = append(parts, fmt.Sprintf("q%d", k))
+		}
+		sum := strings.Join(parts, " + ")
+		for _, tail := range []string{"q1", "q1 + q2 + q" + fmt.Sprint(n), "row.weight + q1 + row.weight", "f(q2, q1, q" + fmt.Sprint(n) + ") + q" + fmt.Sprint((n+1)/2), sum} {
+			c10Fields(w, &FieldCase{Src: "(" + sum + ") / (" + tail + ")"})
+			c10Fields(w, &FieldCase{Src: "[" + strings.Join(parts, ", ") + ", " + tail + "]"})
+			w.Count("many_names_cases")
+		}
+	}
 	// 4. repeated mentions: names and paths that differ only in letter case, in a prefix, or not at all, in every order
 	// (the reported fields are the DISTINCT reads: each exactly once, whatever the order of mention)
-	names := []string{"a", "A", "a.b", "A.b", "a.B", "$l", "$L", "aa", "Aa", "a.b.c", "ab", longKeyA, longKeyB, "m." + longKeyA}
+	names := []string{"a", "A", "a.b", "A.b", "a.B", "$l", "$L", "aa", "Aa", "a.b.c", "ab", longKeyA, longKeyB, "m." + longKeyA, "__t", "___t", "_t", "__t.__u"}
 	for _, x := range names {
 		for _, y := range names {
 			for _, z := range names {
